@@ -6,6 +6,7 @@ and per (message, args, exception) form.  A tree interpreter gives the expected 
 trace id; records are captured on the root logger.
 """
 
+import asyncio
 import itertools
 import logging
 
@@ -66,6 +67,13 @@ def _node_opts(names, traces=(0, 1, 2)):
 
 def programs(tier: str):
     yield {"nodes": []}
+    for lg in (False, True):
+        for tr in (0, 1):
+            # the nested scope is left by a cancellation its parent's code handles: lines logged
+            # afterwards belong to the parent scope again
+            yield {
+                "nodes": [{"opt": [False, 0, "outer"], "parent": None, "place": "root"}, {"opt": [lg, tr, "inner"], "parent": 0, "place": "inline", "ending": "cancel"}],
+            }
     for lg in (False, True):
         yield {"nodes": [{"opt": [lg, 0, "a"], "parent": None, "place": "root"}], "level_switch": True}
         for place in ("inline", "spawn"):
@@ -202,11 +210,19 @@ def execute(program, ch: Chooser) -> Result:  # noqa: C901, PLR0915
             log_all(i, "pre")
             for j, n in enumerate(nodes):
                 if n["parent"] == i:
-                    if n["place"] == "inline":
+                    if n["place"] == "inline" and n.get("ending") == "cancel":
+                        try:
+                            await run_node(j)
+                        except asyncio.CancelledError:
+                            asyncio.current_task().uncancel()
+                    elif n["place"] == "inline":
                         await run_node(j)
                     else:
                         ctx.spawn(run_node, j)
             log_all(i, "post")
+            if nodes[i].get("ending") == "cancel":
+                asyncio.current_task().cancel()
+                await asyncio.sleep(0)
 
     async def main() -> None:
         log_all(None, "before")
